@@ -15,6 +15,10 @@ Correspondence (implementation vs the Lean model FcModel/Effects.lean through `f
     `Fc.runComparator` instantiated with the stage verdicts obtained through the public API (`c19ladder`).
 Search (implementation vs the property): any modified input array / input file / unrequested file; any disagreement of
 verdicts / per-field statuses between repeated, fresh, later and other-process (subprocess CLI) runs.
+Phase 6 (G2): `fcv/c19_xhist_p6g.py` adds search-only "extended histories" over what the effect model does not cover:
+tabular data, sequences, array storage forms, further operations (merge of 3 / keeping duplicates / with itself, diff in
+both directions, a view of a view, FieldDataComparator, ExactEquality / FuzzyEquality / one ScaledTolerance object in two
+predicates) and a catalogue of CLI option combinations (file / dir mode, --diff, erroring runs, PYTHONHASHSEED).
 """
 from __future__ import annotations
 import contextlib
@@ -32,6 +36,7 @@ import xml.etree.ElementTree as ET
 import numpy as np
 
 from fcv import meshgen, predio, core
+from fcv import c19_xhist_p6g as xhist
 from fcv.num import next_up
 
 MESHIO_UP = {"vertex": "VERTEX", "line": "LINE", "triangle": "TRIANGLE", "quad": "QUAD", "tetra": "TETRA",
@@ -981,7 +986,13 @@ def run(ctx):
                 "re-reads everything the initial objects expose (points, cells, values) and snapshots all tracked "
                 "arrays/files/directories and records stored/computed + alias sets of every exposed result array; (ii) histories of "
                 "2-8 events on one predicate object (calls on fields of magnitude 1e-9..1e12, dtypes f64/f32/int/str, tolerance "
-                "setters); (iii) CLI comparisons in-process twice and in a subprocess. non-trivial = a history with >= 2 steps and a "
+                "setters); (iii) CLI comparisons in-process twice and in a subprocess; (iv) extended histories (search only, "
+                "fcv/c19_xhist_p6g.py): tabular data (index maps, shared arrays, .csv files; FieldDataComparator, shared predicate "
+                "objects, diff both ways, transform, write), meshes stored read-only / strided / Fortran / narrow / big-endian / with "
+                "shared arrays / NaN-inf values under merge(3 operands, keep duplicates, self), diff both ways, views of views, meshio "
+                "round trips, sequences (.pvd, XDMF: abandoned / repeated iteration, kept steps, re-opened files), CLI option "
+                "catalogue in file and dir mode incl. --diff and erroring runs, twice in-process + subprocess with fixed "
+                "PYTHONHASHSEED, listings of cwd / source / reference / output / TMPDIR. non-trivial = a history with >= 2 steps and a "
                 "result object / a predicate history with >= 2 calls and both verdicts occurring; distinct = distinct protocol line")
     ctx.assumptions += [
         "effect summaries (reads/writes/fresh/aliases per public operation) are hand-written from the code; their tie to the code is this snapshot correspondence",
@@ -1002,6 +1013,8 @@ def run(ctx):
         eval_pred_cases(ctx, cases)
         for k in range(ctx.scale(8, 150)):
             eval_process_case(ctx, gen_process_case(rng), workroot, f"p{k}")
+        # phase 6 (G2): extended histories — tabular data, sequences, storage forms, CLI option combinations (search)
+        xhist.run_all(ctx, sys.modules[__name__])
         # shrink the first few history violations (the first one becomes the replay)
         for v in ctx.spec_viol[:3]:
             if isinstance(v.get("case"), dict) and v["case"].get("kind") == "history":
@@ -1028,6 +1041,8 @@ def _replay_case(ctx, c):
             eval_pred_cases(ctx, [c])
         elif kind == "process":
             eval_process_case(ctx, c, root, "p")
+        elif kind == "xhist":
+            xhist.eval_case(ctx, c, sys.modules[__name__], do_shrink=False)
         else:
             raise ValueError(f"unknown case kind {kind!r}")
     finally:
